@@ -7,6 +7,7 @@
   The companion theorems of the extracted facts (`C17_gen_*`) are in JRV/Properties/C17Gen.lean.
 -/
 import JRV.Model.Wire
+import JRV.Lemmas.ByteBody
 
 set_option linter.unusedSimpArgs false
 
@@ -243,6 +244,49 @@ theorem C17_chunkwise_not_independent :
     decodeChunkwise [[0xC3, 0xA9]] = .ok "é" := by
   decide +kernel
 
+/-- Decoding is exact.  Whenever the text layer of the server (or of the client) decodes received bytes,
+    the text re-encodes to the very bytes received: no byte is dropped, replaced or normalised — a leading
+    EF BB BF stays the character U+FEFF — and two different byte strings never give the same text.  So the
+    dispatcher receives exactly the decoding of the bytes that were sent, and only when they have one. -/
+theorem C17_decode_exact (m n : Nat) (stream : Bytes) (reads : List Nat) (text : String)
+    (h : serverBody m n stream reads = .ok text) :
+    toBytes text = (readLoop m n stream reads).flatten ∧
+    toBytes text = stream.take (readTotal m n stream reads) ∧
+    (∀ b : Bytes, fromBytes b = .ok text → b = (readLoop m n stream reads).flatten) := by
+  unfold serverBody at h
+  have he := ByteBody.decode_exact _ _ h
+  refine ⟨he, ?_, fun b hb => ByteBody.decode_injective _ _ _ hb h⟩
+  rw [he, readLoop_flatten]
+
+/-- Client side of the same statement: `close()` returns either the text whose encoding is the joined
+    chunks, or (undecodable) the joined chunks themselves. -/
+theorem C17_decode_exact_client (chunks : List Bytes) :
+    (∃ s, clientClose chunks = .text s ∧ toBytes s = chunks.flatten) ∨ clientClose chunks = .raw chunks.flatten := by
+  unfold clientClose
+  by_cases he : chunks.isEmpty = true
+  · left
+    refine ⟨"", by simp [he], ?_⟩
+    have : chunks = [] := by simpa using he
+    subst this; decide
+  · simp only [he, Bool.false_eq_true, ↓reduceIte]
+    cases hd : fromBytes chunks.flatten with
+    | ok s => left; exact ⟨s, rfl, ByteBody.decode_exact _ _ hd⟩
+    | error e => right; rfl
+
+/-- A byte-order mark is part of the body: a body `EF BB BF ++ rest` read in any complete schedule is handed
+    to the dispatcher as `"\uFEFF" ++ t` (never as `t`). -/
+theorem C17_bom_kept (m : Nat) (t : String) (rest : Bytes) (reads : List Nat)
+    (hcomplete : readTotal m (toBytes ("\uFEFF" ++ t)).length (toBytes ("\uFEFF" ++ t) ++ rest) reads
+      = (toBytes ("\uFEFF" ++ t)).length) :
+    serverBody m (toBytes ("\uFEFF" ++ t)).length (toBytes ("\uFEFF" ++ t) ++ rest) reads = .ok ("\uFEFF" ++ t) ∧
+    ("\uFEFF" ++ t).toList = Char.ofNat 0xFEFF :: t.toList ∧
+    (toBytes ("\uFEFF" ++ t)).take 3 = [0xEF, 0xBB, 0xBF] := by
+  refine ⟨C17_reassembly_server m _ rest reads hcomplete, by rw [String.toList_append]; rfl, ?_⟩
+  have h3 : toBytes "\uFEFF" = [0xEF, 0xBB, 0xBF] := by decide +kernel
+  have ha : toBytes ("\uFEFF" ++ t) = toBytes "\uFEFF" ++ toBytes t := by
+    simp [toBytes, String.toUTF8, String.toByteArray_append, ByteArray.data_append]
+  rw [ha, h3]; rfl
+
 /-- Request target: path plus query unchanged, "/" for an empty path, always "/" (plus query) for
     unix+http URLs. -/
 theorem C17_target (netloc path query : String) :
@@ -298,6 +342,12 @@ theorem C17_scheme (u : Url) :
     · have : splitUnix "unix+http" = (true, "http") := by decide
       simp [this, Except.isOk, Except.toBool, pure, Except.pure]
 
+/- Non-vacuity of `C17_decode_exact` / `C17_bom_kept`: the five bytes EF BB BF 7B 7D read one, then four. -/
+example : serverBody 10 5 [0xEF, 0xBB, 0xBF, 0x7B, 0x7D] [1, 4] = .ok "\uFEFF{}" := by decide +kernel
+example : readTotal 10 (toBytes ("\uFEFF" ++ "{}")).length (toBytes ("\uFEFF" ++ "{}") ++ []) [1, 4] = (toBytes ("\uFEFF" ++ "{}")).length := by
+  decide +kernel
+example : clientClose [[0xEF, 0xBB], [0xBF, 0x7B, 0x7D]] = .text "\uFEFF{}" ∧ clientClose [[0xFF, 0xFE]] = .raw [0xFF, 0xFE] := by
+  decide +kernel
 /- Non-vacuity: a schedule of short reads that delivers a 2-byte body one byte at a time. -/
 example : readTotal 10 2 [0xC3, 0xA9] [1, 1] = 2 := by decide
 example : readLoop 10 2 [0xC3, 0xA9] [1, 1] = [[0xC3], [0xA9]] := by decide
